@@ -21,8 +21,8 @@ VERIF = Path(__file__).resolve().parent.parent
 REPO = Path(os.environ.get("VERIF_REPO", "/repo"))
 COQ = VERIF / "coq"
 BUILD = VERIF / "_build"
-EVIDENCE = VERIF / "evidence"
-REPLAYS = VERIF / "replays"
+EVIDENCE = Path(os.environ.get("VERIF_EVIDENCE_DIR", str(VERIF / "evidence")))  # seed verification redirects this
+REPLAYS = Path(os.environ.get("VERIF_REPLAY_DIR", str(VERIF / "replays")))
 CORPUS = VERIF / "corpus"
 PY = "/venv/bin/python"
 NCPU = os.cpu_count() or 4
